@@ -355,7 +355,7 @@ func classifyH(c CaseH) core.Class {
 func TestC13h(t *testing.T) {
 	core.Run(t, core.Spec[CaseH]{
 		Property: "C13", Sub: "h",
-		Rule: "histories of builds on live listener objects: 1-2 listeners created per case (the first HTTP, the second HTTP or SMB; encodable configurations of (a)), then 2-4 steps of {60%: an operator edit of the chosen HTTP listener changing one or two of user agent / headers / URIs / proxy, applied in place with the same assignments as Teamserver.ListenerEdit; a build with a new Builder and freshly generated options (every choice of (a))}. Covers: rebuild after an edit, two builds with different options on an unchanged listener, builds for two listener objects alternating (HTTP/HTTP and HTTP/SMB). Package-level state of the builder package is not reset between cases. Oracle: every build's block, read by the transcription of DemonConfig(), equals that build's options and the listener's configuration at that moment; the live listener equals the model after every build. Non-trivial: a listener is built for more than once; distinct = (#listeners, HTTP+SMB, #steps, set of rebuild classes / first edited field). THROUGH THE TEAMSERVER (3 cases in 10, label via-dispatch): a real server.Teamserver (private database, no Start()) with one operator on a real websocket; 2-3 listeners are brought up (the first HTTP, the others HTTP 4/7, SMB 2/7, External 1/7; SMB and External by the real ListenerStart, HTTP by ListenerStart's bookkeeping without binding a socket), whose NAMES are drawn from one group of related strings - a base name and 2-4 of its relatives: other letter case, Unicode simple-fold partner (s/U+017F, k/U+212A), leading / trailing blank or tab, NFC vs NFD spelling, prefix, suffix, extension - in random order, one add in eight reusing a taken name (also with another listener type; refused by HEAD). Then a payload is requested for every listener in turn, newest first, each request being the operator's Gate/Stageless package (JSON -> CreatePackage -> EventAppend -> DispatchEvent; fresh options, x64/x86, format Exe 6/10 or any of the five), and 0-2 rounds of {operator Listener/Edit package for a HTTP listener through DispatchEvent, then builds for a relative and for the edited one | another listener of the group, then builds newest first | Listener/Remove of an SMB/External listener, then a build naming the removed one and one that is left | a build naming a group member that no listener has}. The compilers of t.Settings are stubs that store their command line in the -o file, so the payload that arrives on the operator's socket tells which configuration block and transport define it was compiled with. Oracle per request, the model knowing names only as exact strings (HEAD): the name of an existing HTTP/SMB listener => one payload arrives, compiled with that listener's transport define and a block that DemonConfig() reads as that request's options and the settings of the listener with byte-exactly that name as they are at that moment (a payload that instead reads, field by field, as another coexisting listener's configuration is reported as payload-configured-for-other-listener with the relation of the two names); the name of an External listener or of no listener => whatever arrives must not be configured for any existing listener (HEAD: Error message / a block without transport section, equal to a builder's without a listener); the live listener equals the model afterwards. Labels: related-names-coexist (a build names a listener while a relative of it exists), build-while-older|newer-relative-exists:<relation>, relatives-of-different-type, build:unknown-name, build:external-listener, rebuild-after-edit-through-dispatch, build-after-edit-of-relative, add-refused:*; non-trivial: related names coexist at a build, a rebuild after an edit, an unknown or External name; distinct = (kinds built for, closest name relation, flags)",
+		Rule: "histories of builds on live listener objects: 1-2 listeners created per case (the first HTTP, the second HTTP or SMB; encodable configurations of (a)), then 2-4 steps of {60%: an operator edit of the chosen HTTP listener changing one or two of user agent / headers / URIs / proxy, applied in place with the same assignments as Teamserver.ListenerEdit; a build with a new Builder and freshly generated options (every choice of (a))}. Covers: rebuild after an edit, two builds with different options on an unchanged listener, builds for two listener objects alternating (HTTP/HTTP and HTTP/SMB). Package-level state of the builder package is not reset between cases. Oracle: every build's block, read by the transcription of DemonConfig(), equals that build's options and the listener's configuration at that moment; the live listener equals the model after every build. Non-trivial: a listener is built for more than once; distinct = (#listeners, HTTP+SMB, #steps, set of rebuild classes / first edited field). THROUGH THE TEAMSERVER (3 cases in 10, label via-dispatch): a real server.Teamserver (private database, no Start()) with one operator on a real websocket; 2-3 listeners are brought up (the first HTTP, the others HTTP 4/7, SMB 2/7, External 1/7; SMB and External by the real ListenerStart, HTTP by ListenerStart's bookkeeping without binding a socket), whose NAMES are drawn from one group of related strings - a base name and 2-4 of its relatives: other letter case, Unicode simple-fold partner (s/U+017F, k/U+212A), leading / trailing blank or tab, NFC vs NFD spelling, prefix, suffix, extension - in random order, one add in eight reusing a taken name (also with another listener type; refused by HEAD). Then a payload is requested for every listener in turn, newest first, each request being the operator's Gate/Stageless package (JSON -> CreatePackage -> EventAppend -> DispatchEvent; fresh options, x64/x86, format Exe 6/10 or any of the five), and 0-2 rounds of {operator Listener/Edit package for a HTTP listener through DispatchEvent, then builds for a relative and for the edited one | another listener of the group, then builds newest first | Listener/Remove of an SMB/External listener, then a build naming the removed one and one that is left | a build naming a group member that no listener has}. The compilers of t.Settings are stubs that store their command line in the -o file, so the payload that arrives on the operator's socket tells which configuration block and transport define it was compiled with. Oracle per request, the model knowing names only as exact strings (HEAD): the name of an existing HTTP/SMB listener => one payload arrives, compiled with that listener's transport define and a block that DemonConfig() reads as that request's options and the settings of the listener with byte-exactly that name as they are at that moment (a payload that instead reads, field by field, as another coexisting listener's configuration is reported as payload-configured-for-other-listener with the relation of the two names); the name of an External listener or of no listener => whatever arrives must not be configured for any existing listener (HEAD: Error message / a block without transport section, equal to a builder's without a listener); the live listener equals the model afterwards. Labels: related-names-coexist (a build names a listener while a relative of it exists), build-while-older|newer-relative-exists:<relation>, relatives-of-different-type, build:unknown-name, build:external-listener, rebuild-after-edit-through-dispatch, build-after-edit-of-relative, add-refused:*; non-trivial: related names coexist at a build, a rebuild after an edit, an unknown or External name; distinct = (kinds built for, closest name relation, flags). FAULT (4 histories through the teamserver in 10): for ONE payload request that names an existing HTTP / SMB listener the compilers of t.Settings get a generated behaviour (f_test.go) - end {exit status 0 | 1, 2, 126, 127, 255 | death by SIGKILL / SIGSEGV / SIGTERM together with the `sh -c` shell} x output file {complete | cut to half | empty | missing | at another path}, exit 0 with a complete output being slow (100-300 ms) and sometimes loud - and the ordinary compiler again for the requests after it. Oracle as before, with HEAD as the model of a failed step: a compiler that does not end with exit status 0 yields no payload (so its absence is not reported); a payload that arrives all the same must carry the right transport and the complete block like any other (signature suffix |fault=<tool:end:output>); what a compiler that says 0 leaves at the -o path is delivered as it is and not judged. Labels fault:child-process:compiler:<end kind>+output-<state>@dispatch-build, fault-then-more-steps@dispatch",
 		Gen:  genH, Check: checkH, Classify: classifyH,
 		Assumptions: []string{
 			"an edit is performed by assigning Config.UserAgent, Config.Headers, Config.Uris and Config.Proxy on the live *handlers.HTTP — the assignments of Teamserver.ListenerEdit on HEAD — without the database write that accompanies them there (C10/C16 cover that part)",
